@@ -140,6 +140,41 @@ def driver_model(g, cl):
     return {"chunk": chunk, "carriers": carriers, "pats": pats, "recognisers": recognisers, "scan": scan, "carry_updates": updates}
 
 
+def _emits(node):
+    """line events of the splitter: (node, (line, terminator) expression) - a call of _filter_and_write_line, or a `yield` when the
+    splitter is a generator whose items the driver hands to _filter_and_write_line one by one"""
+    out = []
+    for c in ast.walk(node):
+        if isinstance(c, ast.Call) and c.args and ((isinstance(c.func, ast.Attribute) and c.func.attr == "_filter_and_write_line")
+                                                   or (isinstance(c.func, ast.Name) and c.func.id == "_filter_and_write_line")):
+            out.append((c, c.args[0]))
+        elif isinstance(c, ast.Yield) and c.value is not None:
+            out.append((c, c.value))
+    return sorted(out, key=lambda x: (x[0].lineno, x[0].col_offset))
+
+
+def splitter(px):
+    """(driver, splitter function, chunk loop, consumer loop or None).  The splitter is the function that loops over the chunks of the
+    template generator: _generate_with_line_buffer itself, or a private generator it iterates
+    (`for item in cls._split(template_gen): cls._filter_and_write_line(item, output_file, line_pps)`)."""
+    g = px.func(GEN_MOD, "CodeGenerator._generate_with_line_buffer")
+    params = [a.arg for a in g.node.args.args]
+    loops = [n for n in g.node.body if isinstance(n, ast.For)]
+    if len(loops) != 1:
+        raise AnalysisError("anchor missing: the chunk loop of _generate_with_line_buffer")
+    lp = loops[0]
+    if isinstance(lp.iter, ast.Name) and lp.iter.id in params:
+        return g, g, lp, None
+    if isinstance(lp.iter, ast.Call):
+        for h in px.resolve_call(g, lp.iter, by_name_fallback=False):
+            if h.module is g.module and any(isinstance(n, ast.Yield) for n in ast.walk(h.node)):
+                hp = [a.arg for a in h.node.args.args]
+                hl = [n for n in h.node.body if isinstance(n, ast.For) and isinstance(n.iter, ast.Name) and n.iter.id in hp]
+                if len(hl) == 1:
+                    return g, h, hl[0], lp
+    raise AnalysisError("anchor missing: the chunk loop of _generate_with_line_buffer")
+
+
 def rule_driver(ctx, px):
     R = "R-C15-DRIVER"
     ctx.rule(
@@ -169,27 +204,39 @@ def rule_driver(ctx, px):
     ctx.ob(R, w.module.rel, f"{w.short} :: writes line then terminator, unconditionally", ok,
            "" if ok else f"writes are {args}", w.node.lineno)
 
-    g = px.func(GEN_MOD, "CodeGenerator._generate_with_line_buffer")
-    chunk_loops = [n for n in g.node.body if isinstance(n, ast.For)]
-    if len(chunk_loops) != 1:
-        raise AnalysisError("anchor missing: the chunk loop of _generate_with_line_buffer")
-    cl = chunk_loops[0]
-    gen_param = g.node.args.args[2].arg
-    ok = ast.unparse(cl.iter) == gen_param
+    drv, g, cl, consumer = splitter(px)
+    gen_param = drv.node.args.args[2].arg
+    if consumer is None:
+        ok = ast.unparse(cl.iter) == gen_param
+    else:
+        # generator form: the splitter receives the driver's generator and every item it yields goes, unchanged and unconditionally,
+        # to _filter_and_write_line together with the driver's own stream and processor list
+        item = consumer.target.id if isinstance(consumer.target, ast.Name) else "?"
+        dparams = [a.arg for a in drv.node.args.args]
+        body = consumer.body
+        call = body[0].value if len(body) == 1 and isinstance(body[0], ast.Expr) and isinstance(body[0].value, ast.Call) else None
+        handed = call is not None and [e for _, e in _emits(call)] and [ast.unparse(a) for a in call.args] == [item, dparams[1], dparams[3]] \
+            and not consumer.orelse and not any(isinstance(x, (ast.Break, ast.Continue)) for x in ast.walk(consumer))
+        ctx.ob(R, drv.module.rel, f"{drv.short} :: every item of the splitter is handed to _filter_and_write_line unchanged", bool(handed),
+               "" if handed else "items of the line splitter are filtered, altered or written past the processors", consumer.lineno)
+        sp = [a.arg for a in g.node.args.args]
+        arg_ok = [ast.unparse(a) for a in consumer.iter.args] == [gen_param] and not consumer.iter.keywords and ast.unparse(cl.iter) == sp[-1]
+        ok = arg_ok and len(sp) - (1 if sp and sp[0] in ("self", "cls") else 0) == 1
     ctx.ob(R, g.module.rel, f"{g.short} :: iterates every chunk of the template generator", ok, "", cl.lineno)
-    inner = [c for c in _calls(cl, "_filter_and_write_line")]
+    inner = [c for c, _ in _emits(cl)]
     ctx.ob(R, g.module.rel, f"{g.short} :: completed lines are handed to _filter_and_write_line", len(inner) >= 1,
            "" if inner else "no call inside the chunk loop", cl.lineno)
     model = driver_model(g, cl)
     after = [st for st in g.node.body[g.node.body.index(cl) + 1:]]
-    flush = [c for st in after for c in _calls(st, "_filter_and_write_line")]
+    flush_ev = [ev for st in after for ev in _emits(st)]
+    flush = [c for c, _ in flush_ev]
     ok = len(flush) >= 1
     ctx.ob(R, g.module.rel, f"{g.short} :: remainder flush after the chunk loop", ok,
            "" if ok else "a final line without terminator is never written", g.node.lineno)
     if ok:
         c = flush[0]
         # first element of the tuple derives from the carried text; second is the empty terminator
-        a0 = pyfront.subst_locals(g.node, c.args[0])
+        a0 = pyfront.subst_locals(g.node, flush_ev[0][1])
         txt = ast.unparse(a0)
         derived = any((f"{cn}.getvalue()" in txt) if kind == "sio" else re.search(rf"\b{re.escape(cn)}\b", txt) is not None for cn, kind in model["carriers"].items())
         ctx.ob(R, g.module.rel, f"{g.short} :: flushed text is the carried text", derived,
@@ -249,11 +296,7 @@ def rule_straddle(ctx, px):
         "a two-character terminator can straddle a chunk boundary, so the splitter must scan the carried text together with the "
         "chunk, or re-join a terminator whose first character ended the carried text",
     )
-    g = px.func(GEN_MOD, "CodeGenerator._generate_with_line_buffer")
-    chunk_loops = [n for n in g.node.body if isinstance(n, ast.For)]
-    if len(chunk_loops) != 1:
-        raise AnalysisError("anchor missing: the chunk loop of _generate_with_line_buffer")
-    cl = chunk_loops[0]
+    _drv, g, cl, _consumer = splitter(px)
     model = driver_model(g, cl)
     recs = model["recognisers"]
     if not recs:
@@ -416,8 +459,40 @@ def rule_pp_contract(ctx, px):
         ctx.ob(R, t.module.rel, f"{t.short} :: cut pattern {pat!r} is end-anchored whitespace", ok,
                "" if ok else "pattern can remove non-whitespace or interior text, or leaves some trailing whitespace", ln)
 
+    def rstrip_fixpoint(e, pol):
+        """`line.rstrip() == line` / `len(line.rstrip()) == len(line)` (or the negation of !=, <, ...): nothing to trim"""
+        try:
+            n = ast.parse(e, mode="eval").body
+        except SyntaxError:
+            return False
+        if not (isinstance(n, ast.Compare) and len(n.ops) == 1):
+            return False
+        a, b, op = n.left, n.comparators[0], n.ops[0]
+
+        def unlen(x):
+            return x.args[0] if isinstance(x, ast.Call) and isinstance(x.func, ast.Name) and x.func.id == "len" and len(x.args) == 1 else None
+        la, lb = unlen(a), unlen(b)
+        sized = la is not None and lb is not None
+        if sized:
+            a, b = la, lb
+        elif la is not None or lb is not None:
+            return False
+
+        def is_rs(x):
+            return isinstance(x, ast.Call) and isinstance(x.func, ast.Attribute) and x.func.attr == "rstrip" and not x.args and not x.keywords \
+                and ast.unparse(x.func.value) in line_alias
+        if is_rs(a) and ast.unparse(b) in line_alias:
+            same_when = {ast.Eq: True, ast.NotEq: False, ast.Lt: False, ast.GtE: True} if sized else {ast.Eq: True, ast.NotEq: False}
+        elif is_rs(b) and ast.unparse(a) in line_alias:
+            same_when = {ast.Eq: True, ast.NotEq: False, ast.Gt: False, ast.LtE: True} if sized else {ast.Eq: True, ast.NotEq: False}
+        else:
+            return False
+        return same_when.get(type(op)) == pol
+
     def implies_no_trailing_ws(terms):
         for e, pol in terms:
+            if rstrip_fixpoint(e, pol):
+                return True
             for mv in match_vars:
                 if (e == f"{mv} is not None" and not pol) or (e == f"{mv} is None" and pol) or (e == mv and not pol):
                     return True
@@ -458,6 +533,8 @@ def rule_pp_contract(ctx, px):
         ctx.ob(R, t.module.rel, label + " keeps the terminator component", ok, "" if ok else f"returns {txt}", r.lineno)
         if isinstance(v, ast.Tuple) and len(v.elts) == 2:
             e0 = v.elts[0]
+            if isinstance(e0, ast.Name) and e0.id not in line_alias:
+                e0 = pyfront.subst_locals(t.node, e0)  # trimmed = line.rstrip(); return (trimmed, ...)
             pref = False
             if isinstance(e0, ast.Subscript) and ast.unparse(e0.value) in line_alias and isinstance(e0.slice, ast.Slice) \
                     and e0.slice.lower is None and e0.slice.step is None and e0.slice.upper is not None:
@@ -612,6 +689,112 @@ def rule_copy(ctx, px):
     ctx.ob(R, f.module.rel, f"{f.short} :: every processor applied in order", ok, "", f.node.lineno)
 
 
+def _is_reset_loop(st, lname):
+    return isinstance(st, ast.For) and isinstance(st.iter, ast.Name) and st.iter.id == lname and isinstance(st.target, ast.Name) and any(
+        isinstance(c, ast.Call) and isinstance(c.func, ast.Attribute) and c.func.attr == "reset" and isinstance(c.func.value, ast.Name)
+        and c.func.value.id == st.target.id and pyfront.guards_of(st, c) in (None, ()) for c in ast.walk(st))
+
+
+def _loops_around(fnode, node, pm):
+    out = []
+    n = node
+    while id(n) in pm and n is not fnode:
+        n = pm[id(n)]
+        if isinstance(n, (ast.For, ast.While)):
+            out.append(id(n))
+    return set(out)
+
+
+def rule_reset(ctx, px):
+    R = "R-C15-RESET"
+    ctx.rule(
+        R,
+        "each file is processed from the processors' initial state (the reference is line-by-line processing of *that* text): on the way "
+        "to every `with open(.., 'w')` whose body applies a list of line processors, a loop calling reset() on every element of that "
+        "very list is executed once per file - it dominates the open in the same function, or in each caller that passes the list "
+        "down, inside every loop that surrounds the call",
+    )
+    mod = px.module(GEN_MOD)
+    funcs = [f for f in px.all_funcs if f.module is mod]
+
+    def applies(with_st, f):
+        """names of processor lists applied inside the with-body: iterated with the element called, or passed to the line driver"""
+        out = set()
+        params_and_locals = {n.id for n in ast.walk(f.node) if isinstance(n, ast.Name)} | {a.arg for a in f.node.args.args}
+        for n in ast.walk(with_st):
+            if isinstance(n, ast.For) and isinstance(n.iter, ast.Name) and isinstance(n.target, ast.Name) and any(
+                    isinstance(c, ast.Call) and isinstance(c.func, ast.Name) and c.func.id == n.target.id for c in ast.walk(n)):
+                out.add(n.iter.id)
+            if isinstance(n, ast.Call) and isinstance(n.func, ast.Attribute) and n.func.attr in ("_generate_with_line_buffer", "_filter_and_write_line"):
+                for a in n.args:
+                    if isinstance(a, ast.Name) and a.id in params_and_locals and a is n.args[-1]:
+                        out.add(a.id)
+        return out
+
+    def helper_resets(f, call):
+        """`L = self._helper()` where the helper resets a list it returns"""
+        for h in px.resolve_call(f, call, by_name_fallback=False):
+            rets = [r.value for r in ast.walk(h.node) if isinstance(r, ast.Return) and r.value is not None]
+            names = {n.id for r in rets for n in ast.walk(r) if isinstance(n, ast.Name)}
+            if any(_is_reset_loop(st, nm) for st in ast.walk(h.node) for nm in names):
+                return True
+        return False
+
+    def check(f, lname, site_stmt, depth, trail):
+        pm = pyfront.parent_map(f.node)
+        doms = pyfront.dominating_stmts(f.node, site_stmt) or []
+        need = _loops_around(f.node, site_stmt, pm)
+        for st in doms:
+            hit = _is_reset_loop(st, lname)
+            if not hit and isinstance(st, ast.Assign) and isinstance(st.value, ast.Call):
+                tgts = [x.id for t_ in st.targets for x in ([t_] if isinstance(t_, ast.Name) else (t_.elts if isinstance(t_, ast.Tuple) else [])) if isinstance(x, ast.Name)]
+                hit = lname in tgts and helper_resets(f, st.value)
+            if hit and need <= _loops_around(f.node, st, pm):
+                return True, f"reset loop at {f.short}:{st.lineno}"
+            if hit:
+                return False, (f"the processors are reset at {f.short}:{st.lineno}, outside the loop that produces one file per iteration: state "
+                               f"(the empty-line count) is carried from the end of one file into the beginning of the next")
+        params = [a.arg for a in f.node.args.args]
+        if lname not in params or depth >= 4:
+            return False, f"no reset() loop over `{lname}` before the file is written in {f.short}"
+        idx = params.index(lname)
+        sites = []
+        for g in funcs:
+            for c in px.calls_in(g, include_nested=False):
+                if f in px.resolve_call(g, c, by_name_fallback=False):
+                    sites.append((g, c))
+        if not sites:
+            return False, f"{f.short} receives `{lname}` without resetting it and no caller is found"
+        why = []
+        for g, c in sites:
+            off = 1 if params and params[0] in ("self", "cls") and isinstance(c.func, ast.Attribute) else 0
+            arg = c.args[idx - off] if 0 <= idx - off < len(c.args) else pyfront.call_keywords(g.node, c).get(lname)
+            if not isinstance(arg, ast.Name):
+                return False, f"{g.short}:{c.lineno} passes {ast.unparse(arg) if arg is not None else 'nothing'} as the processor list of {f.short}"
+            gpm = pyfront.parent_map(g.node)
+            ok, w = check(g, arg.id, pyfront.enclosing_stmt(c, gpm), depth + 1, trail + [f.short])
+            if not ok:
+                return False, w
+            why.append(w)
+        return True, "; ".join(sorted(set(why)))
+
+    n = 0
+    for f in funcs:
+        for w_ in ast.walk(f.node):
+            if not isinstance(w_, ast.With):
+                continue
+            opens_w = any(isinstance(it.context_expr, ast.Call) and ast.unparse(it.context_expr.func) == "open" and len(it.context_expr.args) >= 2
+                          and isinstance(it.context_expr.args[1], ast.Constant) and "w" in str(it.context_expr.args[1].value) for it in w_.items)
+            if not opens_w:
+                continue
+            for lname in sorted(applies(w_, f)):
+                # the outermost `with open(.., 'w')`/`with open(.., 'r')` nest counts once: take the statement as found
+                n += 1
+                ok, why = check(f, lname, w_, 0, [])
+                ctx.ob(R, f.module.rel, f"{f.short} :: processors `{lname}` start every file from their initial state", ok, why, w_.lineno)
+    ctx.floor(R, n, 2)
+
+
 def run(ctx):
     ctx.explanation = (
         "C15 is decided on the shape of the line-buffer driver and of the two built-in line processors: all lines and "
@@ -625,3 +808,4 @@ def run(ctx):
     rule_straddle(ctx, px)
     rule_pp_contract(ctx, px)
     rule_copy(ctx, px)
+    rule_reset(ctx, px)
